@@ -24,6 +24,10 @@ C = {
          "exhaustive enumeration of alphabet cross products + explicit-state BFS (stateright) over operation sequences on the implementation, reference-model oracle"),
  "C10": ("~450 instants x every whole-minute offset (all 172 799 offsets thorough) and x all pairs (previous, new) of 27 boundary offsets: set_offset keeps timestamp, ==, cmp and all differences while all 11 getters and the formatted fields equal the decomposition of instant + offset; as_offset keeps fields and shifts the instant; Time analogues on all 86 400 seconds; Offset constructors/resolve round trip on all 172 799 offsets.",
          "exhaustive enumeration of instant x offset spaces on the implementation, reference-model oracle"),
+ "C11": ("Every single token (19 symbols x widths 1..=10) on every day of seven windows plus landmarks, every second of the day x sub-second bounds, and the offset axis, plus every pattern of <= 3 pieces from an alphabet of 44/56/88 pieces (symbols at widths 1,2,4,5, literals incl. multi-byte, quoted text, '') x 20 values with offsets, for Date, Time and DateTime, against a renderer written from the rustdoc symbol table.",
+         "exhaustive enumeration of bounded pattern x value spaces on the implementation, table-driven reference renderer"),
+ "C12": ("15 288 patterns generated from the unambiguous-field grammar (32 date parts x 24 time parts x 11 zone symbols x separators/quoted text) x 2 928 values (all eras, months >= 10, hours 0/11/12/13/23, noon/midnight, offsets with and without seconds): format -> parse -> format must reproduce the string; full patterns must recover instant and offset.",
+         "exhaustive enumeration of a generated pattern grammar x value set on the implementation, round-trip oracle"),
  "C15": ("Full cross products of boundary alphabets for every fallible constructor and all 10 setters, complete 2^32 sweeps of Time::from_seconds and Offset::from_seconds; Ok iff reference-valid and reads back its arguments, Err is OutOfRange, and a stated range is checked against the set of values the real function accepts for the named parameter.",
          "exhaustive enumeration of boundary-alphabet cross products and complete u32/i32 argument axes on the implementation, validity oracle"),
 }
